@@ -212,3 +212,107 @@ def construction_tuple(F, cls, call, fn=None, depth=0):
     except Unknown:
         return None
     return out
+
+
+def _stored_values(fn, decl):
+    """expressions whose value is stored into `decl` inside fn (initialiser, assignments, element assignments, mutating member calls)"""
+    from engine.util import skip_copies
+    out = []
+    for n in fn.all_nodes():
+        if n.get("k") == "decl":
+            for v in n.get("vars", []):
+                if v.get("decl") == decl and isinstance(v.get("init"), dict):
+                    out.append(v["init"])
+        if n.get("k") == "binop" and (n.get("op") or "").endswith("=") and n.get("op") not in ("==", "!=", "<=", ">="):
+            base = skip_copies(n.get("lhs"))
+            while isinstance(base, dict) and base.get("k") == "subscript":
+                base = skip_copies(base.get("base"))
+            if isinstance(base, dict) and base.get("k") == "ref" and base.get("decl") == decl:
+                out.append(n.get("rhs"))
+        if n.get("k") == "unop" and n.get("op") in ("++", "--") and isinstance(n.get("e"), dict) and skip_copies(n["e"]).get("decl") == decl:
+            out.append(n)
+        if n.get("k") == "call" and n.get("ck") == "operator" and n.get("op") in ("=", "+=", "-=", "++", "--") and n.get("args"):
+            l = skip_copies(n["args"][0])
+            if isinstance(l, dict) and l.get("k") == "ref" and l.get("decl") == decl:
+                out.append(n["args"][1] if len(n["args"]) > 1 else n)
+        if n.get("k") == "call" and n.get("ck") == "member" and n.get("constm") is False:
+            o = skip_copies(n.get("obj")) if isinstance(n.get("obj"), dict) else {}
+            if o.get("k") == "ref" and o.get("decl") == decl:
+                out += list(n.get("args", [])) or [n]
+    return out
+
+
+def _constant_value(fn, e, depth=0, seen=None):
+    """the value depends on nothing but literals and locals that are themselves computed from literals / loop counters"""
+    from engine.util import const_str, skip_copies
+    seen = seen if seen is not None else set()
+    if not isinstance(e, dict):
+        return True
+    if const_str(e) is not None:
+        return True
+    for x in walk(e):
+        k = x.get("k")
+        if k == "this" or (k == "ref" and x.get("dk") in ("param", "field")) or k == "member":
+            return False
+        if k == "unop" and x.get("op") in ("++", "--"):
+            o_ = skip_copies(x.get("e")) if isinstance(x.get("e"), dict) else {}
+            if not (o_.get("k") == "ref" and o_.get("dk") == "local" and not o_.get("static")):
+                return False
+            continue
+        if k == "call" and x.get("ck") in ("member", "free") and const_str(x) is None:
+            if (x.get("callee") or "").split("::")[-1] not in ("operator()",) and not (x.get("callee") or "").startswith(("QStaticStringData", "QStringLiteral", "QLatin1", "QChar", "QString::fromLatin1", "QString::fromUtf8", "QRegularExpression")):
+                return False
+        if k == "ref" and x.get("dk") == "local" and x.get("decl") not in seen and depth < 3:
+            seen.add(x["decl"])
+            for w in _stored_values(fn, x["decl"]):
+                if not _constant_value(fn, w, depth + 1, seen):
+                    return False
+    return True
+
+
+def shared_static_state(ck, F, rid, what_lock):
+    """static-storage variables written by code that runs as part of a handler (process / format / filter / send / attributes / flush and
+    everything they reach).  Such a variable is shared by every instance of the handler and by every pipeline, i.e. it lies outside
+    the one lock a pipeline runs under; it is accepted only as a cache of constants."""
+    subs = F.subclasses("QtLogger::Handler") | {"QtLogger::Handler"}
+    roots = [f for f in F.fns.values() if f.body is not None and strip_tmpl(f.cls or "") in subs and f.name.split("::")[-1] in ("process", "format", "filter", "send", "attributes", "flush")]
+    ck.require(len(roots) >= 25, "only %d handler entry points found (25 confirmed by hand)" % len(roots))
+    reach = F.reachable_from(roots, virtual=True)
+    for f in list(F.fns.values()):
+        if f.lambda_of in reach:
+            reach.add(f.id)
+    n_static, bad = 0, 0
+    for gv in sorted(F.globals.values(), key=lambda g: (g.get("file") or "", g.get("line") or 0, g.get("name") or "")):
+        if gv.get("const") or "/src/qtlogger/" not in (gv.get("file") or ""):
+            continue
+        if gv.get("staticlocal"):
+            if gv.get("function") not in reach:
+                continue
+            fns = [F.fns.get(gv.get("function"))]
+        else:
+            fns = [f for f in F.fns.values() if f.id in reach and f.body is not None and any(x.get("k") == "ref" and x.get("decl") == gv["decl"] for x in f.all_nodes())]
+            if not fns:
+                continue
+        n_static += 1
+        stored = [(f, w) for f in fns if f is not None and f.body is not None for w in _stored_values(f, gv["decl"])]
+        state = [(f, w) for f, w in stored if not _constant_value(f, w)]
+        where = "%s:%s (%s)" % ((gv.get("file") or "").split("/src/")[-1], gv.get("line"), gv.get("name"))
+        if gv.get("staticlocal") and state:
+            # initialised at its declaration (thread-safe in C++11) and never written afterwards: fixed for the life of the process
+            f_ = fns[0]
+            inits = [v.get("init") for n_ in f_.find(lambda n: n.get("k") == "decl") for v in n_.get("vars", []) if v.get("decl") == gv["decl"] and isinstance(v.get("init"), dict)]
+            if len(stored) == len(inits) == 1 and stored[0][1].get("id") == inits[0].get("id"):
+                # ... unless the initialiser depends on the first caller's arguments (one answer for everybody: C19-O5's business too)
+                if not any(x.get("k") == "ref" and x.get("dk") == "param" for x in walk(inits[0])):
+                    ck.ob(rid, where, True, "%s: initialised once at its declaration, never written afterwards" % gv.get("name"), key="static-state|%s" % (gv.get("name") or "").split("::")[-1])
+                    continue
+        if state:
+            bad += 1
+            f0, w0 = state[0]
+            ck.ob(rid, where, False, "%s is a static variable written by handler code (%s stores %s): it is shared by every instance and every pipeline, so two pipelines — each correctly under %s — "
+                  "read and write it at the same time, and one pipeline's messages see values left by another's" % (gv.get("name"), f0.name.split("QtLogger::")[-1], describe(w0)[:40], what_lock),
+                  key="static-state|%s" % (gv.get("name") or "").split("::")[-1])
+        else:
+            ck.ob(rid, where, True, "%s: static, but only ever given values computed from constants (a cache)" % gv.get("name"), key="static-state|%s" % (gv.get("name") or "").split("::")[-1])
+    ck.ob(rid, "(handler code)", not bad, "%d functions reachable from the %d handler entry points; %d static variables written there, none carrying state" % (len(reach), len(roots), n_static) if not bad else
+          "%d static variable(s) of handler code carry state across pipelines" % bad, key="static-state|summary")
